@@ -755,3 +755,19 @@ Proof.
         pose proof (shorter_smaller u v Ou Ov Nv ltac:(lia)). lia. }
       apply divLarge_basic_spec; try assumption; lia.
 Qed.
+
+(* the accounting invariant alone (what the unwrapped add-back of the
+   unrepaired code broke): dividend = quotient digits · divisor + remainder *)
+Corollary divBasic_accounting q u v :
+  let n := length v in
+  let m := (length u - n)%nat in
+  let Lq := Nat.min (S m) (length q) in
+  (2 <= n)%nat -> (n <= length u)%nat -> words_ok u = true -> words_ok v = true ->
+  B <= 2 * nthw v (n - 1) -> (m <= length q)%nat -> (length q = m -> val (skipn m u) < val v) ->
+  exists q' u', divBasic q u v = Some (q', u') /\
+    val u = val (firstn Lq q') * val v + val u'.
+Proof.
+  intros n m Lq Hn Hlu Ou Ov Hnorm Hlq Hq0.
+  destruct (divBasic_spec q u v Hn Hlu Ou Ov Hnorm Hlq Hq0) as (q' & u' & E & _ & _ & _ & _ & _ & Acc & _).
+  exists q', u'. split; assumption.
+Qed.
